@@ -178,6 +178,14 @@ func genGraph(r *lib.Rng, tier string) *Case {
 	if chainable(c.Stages) && r.Chance(1, 3) {
 		c.Chain, c.Dag = true, false
 	}
+	// every graph level as a Workflow: eager task collection (a run returns as soon as one task
+	// has failed, the other tasks of that step finish on their own)
+	if !c.Chain && r.Chance(1, 4) {
+		c.Eager, c.Dag = true, false
+		// (the output key of a shared lambda depends on the order of its executions, and a
+		// Workflow puts a predecessor's output under a key of its own: no shared lambdas here)
+		allNodes(c.Stages, func(n *GNode, _ int) { n.Shared = 0 }, 0)
+	}
 	c.InChunks = r.Range(1, 3)
 	// options for the whole graph: 0-5 separate WithCallbacks (three single ones give len 3 cap 4)
 	nU := []int{0, 1, 2, 3, 3, 3, 4, 5}[r.Intn(8)]
@@ -261,6 +269,7 @@ type bodyRec struct {
 }
 
 type runRec struct {
+	eager  bool // every graph level is a Workflow
 	mu     sync.Mutex
 	execs  map[int][]bodyRec // executions in the current run of a run sequence
 	shared map[int]int
@@ -285,6 +294,31 @@ func (rr *runRec) interrupts(uid, intr int) bool {
 	k := rr.count[uid]
 	rr.count[uid]++
 	return k < intr
+}
+
+// settle waits (eager mode) until every node body and tool call the run executes has been
+// entered: from then on no task of the run creates a callback context any more.
+func (rr *runRec) settle(x *expectation) {
+	want := 0
+	for uid, k := range x.kind {
+		if k == "lambda" || k == "call" {
+			want += x.execs[uid]
+		}
+	}
+	deadline := time.Now().Add(10 * time.Second)
+	for time.Now().Before(deadline) {
+		rr.mu.Lock()
+		got := 0
+		for _, recs := range rr.execs {
+			got += len(recs)
+		}
+		rr.mu.Unlock()
+		if got >= want {
+			break
+		}
+		time.Sleep(time.Millisecond)
+	}
+	time.Sleep(3 * time.Millisecond)
 }
 
 // memStore is a compose.CheckPointStore.
@@ -506,6 +540,10 @@ type compilable interface {
 
 // buildTop builds the top level of a case as a Graph or as a Chain.
 func (rr *runRec) buildTop(c *Case) (compilable, error) {
+	rr.eager = c.Eager
+	if c.Eager {
+		return rr.buildWF(c.Stages, map[int]*compose.Lambda{})
+	}
 	if !c.Chain {
 		return rr.build(c.Stages, map[int]*compose.Lambda{})
 	}
@@ -561,11 +599,74 @@ func (rr *runRec) buildTop(c *Case) (compilable, error) {
 	return ch, nil
 }
 
-func (rr *runRec) subGraph(n *GNode, shared map[int]*compose.Lambda) (*compose.Graph[vmap, vmap], error) {
+func (rr *runRec) subGraph(n *GNode, shared map[int]*compose.Lambda) (compose.AnyGraph, error) {
 	if n.Typed == "tools" {
 		return rr.buildToolsSub(n)
 	}
+	if rr.eager {
+		return rr.buildWF(n.Stages, shared)
+	}
 	return rr.build(n.Stages, shared)
+}
+
+// buildWF builds one graph level as a Workflow (eager task collection, all-predecessor
+// triggering): every node of a stage takes the whole output of every node of the stage before it
+// (under the key p<uid> when there are several), END likewise.
+func (rr *runRec) buildWF(stages [][]*GNode, shared map[int]*compose.Lambda) (*compose.Workflow[vmap, vmap], error) {
+	wf := compose.NewWorkflow[vmap, vmap]()
+	type pred struct {
+		key string
+		uid int
+	}
+	prev := []pred{{compose.START, 0}}
+	wire := func(wn *compose.WorkflowNode) {
+		if len(prev) == 1 {
+			wn.AddInput(prev[0].key)
+			return
+		}
+		for _, p := range prev {
+			wn.AddInput(p.key, compose.ToField(fmt.Sprintf("p%d", p.uid)))
+		}
+	}
+	for _, st := range stages {
+		var cur []pred
+		for _, n := range st {
+			key := nodeKey(n.Key)
+			var wn *compose.WorkflowNode
+			switch n.Kind {
+			case "lambda":
+				var l *compose.Lambda
+				if n.Shared > 0 {
+					if shared[n.Shared] == nil {
+						shared[n.Shared] = rr.lambda(n)
+					}
+					l = shared[n.Shared]
+				} else {
+					l = rr.lambda(n)
+				}
+				wn = wf.AddLambdaNode(key, l, compose.WithNodeName(unitName(n.UID)))
+			case "pass":
+				wn = wf.AddPassthroughNode(key, compose.WithNodeName(unitName(n.UID)))
+			case "sub":
+				sub, e := rr.subGraph(n, shared)
+				if e != nil {
+					return nil, e
+				}
+				o := []compose.GraphAddNodeOpt{compose.WithNodeName(unitName(n.UID))}
+				if n.SubDag && n.Typed == "tools" {
+					o = append(o, compose.WithGraphCompileOptions(compose.WithNodeTriggerMode(compose.AllPredecessor)))
+				}
+				wn = wf.AddGraphNode(key, sub, o...)
+			default:
+				return nil, fmt.Errorf("bad node kind %q", n.Kind)
+			}
+			wire(wn)
+			cur = append(cur, pred{key, n.UID})
+		}
+		prev = cur
+	}
+	wire(wf.End())
+	return wf, nil
 }
 
 func inputChunks(k int) []vmap {
@@ -623,12 +724,13 @@ type expectation struct {
 	paths  map[int][]int // uid -> key path from the top graph ([] for the graph itself)
 	kind   map[int]string
 	node   map[int]*GNode
+	calls  map[int]*GCall
 	ps     *planSt
 }
 
 func newExpectation(ps *planSt) *expectation {
 	return &expectation{execs: map[int]int{}, failed: map[int]bool{}, paths: map[int][]int{0: {}},
-		kind: map[int]string{0: "graph"}, node: map[int]*GNode{}, ps: ps}
+		kind: map[int]string{0: "graph"}, node: map[int]*GNode{}, calls: map[int]*GCall{}, ps: ps}
 }
 
 // planSt is where a run sequence (a run, and the runs that resume it after an interrupt) stands:
@@ -850,7 +952,7 @@ func (x *expectation) graph(uid int, stages [][]*GNode, opts []GOpt, path []int)
 				x.execs[n.UID]++
 				for _, c := range n.Calls {
 					x.execs[c.UID]++
-					x.paths[c.UID], x.kind[c.UID] = p, "call"
+					x.paths[c.UID], x.kind[c.UID], x.calls[c.UID] = p, "call", c
 					if x.ps.left[c.UID] > 0 || c.Fails {
 						x.failed[c.UID] = true
 					}
@@ -952,22 +1054,68 @@ type oneRun struct {
 	execs  map[int][]bodyRec
 }
 
-// expectedEvents: how many handler invocations the run is expected to produce (used only to
-// know when the goroutines a run left behind have finished: the run is given time until that
-// many events are there, never less than the settle period)
+// pickNative: which native paradigm of a component the graph calls (newRunnablePacker): in
+// invoke mode Invoke, else Stream, Collect, Transform; in transform mode Transform, else Stream,
+// Collect, Invoke. Bits: 1 Invoke, 2 Stream, 4 Collect, 8 Transform.
+func pickNative(isStream bool, natives int) int {
+	order := []int{0, 1, 2, 3}
+	if isStream {
+		order = []int{3, 1, 2, 0}
+	}
+	for _, p := range order {
+		if natives&(1<<p) != 0 {
+			return p
+		}
+	}
+	return 0
+}
+
+// unitTimings: the timing codes of the start and of the end-or-error callbacks of a unit
+func unitTimings(c *Case, x *expectation, uid int) (int, int) {
+	isStream := c.Paradigm != "invoke"
+	p := 0
+	switch x.kind[uid] {
+	case "graph", "sub":
+		p = 0
+		if isStream {
+			p = 3
+		}
+	case "lambda":
+		p = pickNative(isStream, x.node[uid].Natives)
+	case "tools":
+		p = pickNative(isStream, 3)
+	case "call":
+		p = pickNative(isStream, x.calls[uid].Natives&3)
+	}
+	st, en := 0, 1
+	if p == 2 || p == 3 {
+		st = 3
+	}
+	if p == 1 || p == 3 {
+		en = 4
+	}
+	if x.failed[uid] {
+		en = 2
+	}
+	return st, en
+}
+
+// expectedEvents: how many handler invocations the run produces (used to know when the
+// goroutines an eager run left behind have finished)
 func expectedEvents(c *Case, x *expectation) int {
 	total := 0
 	for uid := range x.paths {
 		if x.kind[uid] == "pass" || x.kind[uid] == "done" {
 			continue
 		}
+		st, en := unitTimings(c, x, uid)
 		for _, sp := range c.Handlers {
 			m := multiplicity(c, sp.ID, x.paths[uid]) * x.execs[uid]
-			if m == 0 {
-				continue
+			if needsT(sp, st) {
+				total += m
 			}
-			if needsAll(sp) {
-				total += 2 * m
+			if needsT(sp, en) {
+				total += m
 			}
 		}
 	}
@@ -1005,7 +1153,7 @@ func runGraph(c *Case) lib.Result {
 	class, detail := watchdog(60*time.Second, func() {
 		mkOpts := func() []compose.GraphCompileOption {
 			copts := []compose.GraphCompileOption{compose.WithGraphName(unitName(0))}
-			if c.Dag {
+			if c.Dag && !c.Eager {
 				copts = append(copts, compose.WithNodeTriggerMode(compose.AllPredecessor))
 			}
 			if c.Store {
@@ -1028,11 +1176,22 @@ func runGraph(c *Case) lib.Result {
 		if c.Store {
 			cpOpt = append(cpOpt, compose.WithCheckPointID("cp"))
 		}
+		ps0 := newPlan(c)
 		for k := 0; k < maxRuns; k++ {
+			r0.nextRun()
 			r := call(run0, c.Paradigm, c.InChunks, cpOpt...)
 			baseline = append(baseline, r)
+			if c.Eager {
+				// the tasks an eager run left behind must not meet the handlers of the next run
+				x0 := newExpectation(ps0)
+				x0.graph(0, c.Stages, nil, nil)
+				r0.settle(x0)
+			}
 			if r != "intr" {
 				break
+			}
+			if ps0.graphOutcome(c.Stages, nil) == outIntr {
+				ps0.advance(c.Stages, nil)
 			}
 		}
 
@@ -1079,7 +1238,7 @@ func runGraph(c *Case) lib.Result {
 		for k := 0; k < maxRuns; k++ {
 			rr.nextRun()
 			result := call(run1, c.Paradigm, c.InChunks, opts...)
-			if !waitWG(&s.wg, 10*time.Second) {
+			if !waitPending(s, 10*time.Second) {
 				fail("graph-stream", "run %d: a handler's copy of a stream payload never ended", k)
 			}
 			if c.Eager {
@@ -1088,7 +1247,7 @@ func runGraph(c *Case) lib.Result {
 				x := newExpectation(ps)
 				x.graph(0, c.Stages, c.Opts, nil)
 				want := expectedEvents(c, x)
-				deadline := time.Now().Add(5 * time.Second)
+				deadline := time.Now().Add(10 * time.Second)
 				for time.Now().Before(deadline) {
 					s.mu.Lock()
 					n := len(s.evts)
@@ -1099,7 +1258,7 @@ func runGraph(c *Case) lib.Result {
 					time.Sleep(2 * time.Millisecond)
 				}
 				time.Sleep(3 * time.Millisecond)
-				waitWG(&s.wg, 10*time.Second)
+				waitPending(s, 10*time.Second)
 			}
 			s.mu.Lock()
 			evts := s.evts
@@ -1328,7 +1487,7 @@ func checkRun(c *Case, x *expectation, run oneRun, specs map[int]HSpec, result s
 			if uid == 0 && c.Chain {
 				wantComp = "Chain"
 			}
-			if c.Eager {
+			if c.Eager && !(x.node[uid] != nil && x.node[uid].Typed == "tools") {
 				wantComp = "Workflow"
 			}
 		case "tools":
@@ -1400,12 +1559,17 @@ func checkRun(c *Case, x *expectation, run oneRun, specs map[int]HSpec, result s
 			a := cnt[hk{sp.ID, unitName(uid)}]
 			starts, ends, errs := a[0]+a[3], a[1]+a[4], a[2]
 			want := multiplicity(c, sp.ID, x.paths[uid]) * x.execs[uid]
-			bad := false
-			if needsAll(sp) {
-				bad = starts != want || ends+errs != want
-			} else {
-				bad = starts > want || ends+errs > want
+			// the timings of the unit's start and end-or-error callbacks follow from the paradigm the
+			// graph calls the component in; a handler with a TimingChecker is invoked for the ones it asks for
+			stT, enT := unitTimings(c, x, uid)
+			wantS, wantE := 0, 0
+			if needsT(sp, stT) {
+				wantS = want
 			}
+			if needsT(sp, enT) {
+				wantE = want
+			}
+			bad := starts != wantS || ends+errs != wantE || a[stT] != wantS || a[enT] != wantE
 			if x.failed[uid] && ends > 0 || !x.failed[uid] && errs > 0 {
 				bad = true
 			}
@@ -1414,8 +1578,8 @@ func checkRun(c *Case, x *expectation, run oneRun, specs map[int]HSpec, result s
 				if want == 0 {
 					sg = "graph-wrongnode"
 				}
-				fail(sg, "handler %d unit %s: %d start / %d end / %d error events, want %d of each side (attached x%d, unit executed %dx, ends with error=%v)",
-					sp.ID, unitName(uid), starts, ends, errs, want, multiplicity(c, sp.ID, x.paths[uid]), x.execs[uid], x.failed[uid])
+				fail(sg, "handler %d unit %s: %d start / %d end / %d error events (by timing %v), want %d with timing %d at the start and %d with timing %d at the end (attached x%d, unit executed %dx, ends with error=%v)",
+					sp.ID, unitName(uid), starts, ends, errs, a, wantS, stT, wantE, enT, multiplicity(c, sp.ID, x.paths[uid]), x.execs[uid], x.failed[uid])
 			}
 		}
 	}
